@@ -186,12 +186,19 @@ def numbersFrom : Nat → List SplitPacket → Bool
   | _, [] => true
   | i, p :: r => p.number == i && numbersFrom (i + 1) r
 
+/-- a packet of the same response as `main`: same header, same id, same announced total -/
+def sameResponse (main q : SplitPacket) : Bool :=
+  q.header == main.header && q.id == main.id && q.total == main.total
+
 /-- sorted fragments → payload of the whole response -/
 def assemble (ext : Ext) (sorted : List SplitPacket) : Res Bytes :=
   if !numbersFrom 0 sorted then .err .packetBad
   else match sorted with
     | [] => .err .packetBad
-    | main :: others => getPayload ext main.decompressed (main.payload ++ (others.map (·.payload)).flatten)
+    | main :: others =>
+      if others.all (sameResponse main) then
+        getPayload ext main.decompressed (main.payload ++ (others.map (·.payload)).flatten)
+      else .err .packetBad
 
 /-- `ValveProtocol::receive` -/
 def receive (ext : Ext) (s : Sock) (engine : Engine) (protocol : Nat) : Q Packet := do
